@@ -214,6 +214,11 @@ def build_harness(name, harness_srcs, repo_srcs, extra_flags=(), shim="shim_time
     if os.path.exists(exe):
         return exe
     os.makedirs(d, exist_ok=True)
+    # keep the cache small: only the most recent builds survive
+    olds = sorted(glob.glob(os.path.join(CACHE, "bin", "*")), key=os.path.getmtime)
+    for o in olds[:-8]:
+        if o != d:
+            shutil.rmtree(o, ignore_errors=True)
     tmp = tempfile.mkdtemp(prefix="iodh.")
     try:
         src = os.path.join(REPO, "src")
